@@ -18,6 +18,57 @@ import sys
 SHOW_INFORMATIONAL_MESSAGES = True
 
 
+class WorkerFailedError(Exception):
+    """Raised in the parent process when a worker process of a parallelized
+    operation has died with an error."""
+
+
+def ensure_workers_ok(workers, done_event=None):
+    """Raise :exc:`WorkerFailedError` if any of the worker processes has exited
+    with a nonzero exit code.
+
+    Parameters
+    ----------
+    workers : iterable of :class:`multiprocessing.Process`
+        The started worker processes.
+    done_event : optional :class:`multiprocessing.Event`
+        If provided, it is set before raising so that the remaining workers
+        wind down.
+    """
+    for w in workers:
+        if w.exitcode is not None and w.exitcode != 0:
+            if done_event is not None:
+                done_event.set()
+
+            raise WorkerFailedError(
+                f"a worker process failed with exit code {w.exitcode}; "
+                "its error message should have been printed above"
+            )
+
+
+def put_checking_workers(queue, item, workers, done_event=None):
+    """Put an item on a (possibly bounded) queue that is drained by worker
+    processes, without blocking forever if the workers have died.
+    """
+    from queue import Full
+
+    while True:
+        try:
+            queue.put(item, True, timeout=1)
+            return
+        except Full:
+            ensure_workers_ok(workers, done_event)
+
+
+def join_workers(workers):
+    """Wait for all of the worker processes to exit and raise
+    :exc:`WorkerFailedError` if any of them failed."""
+    for w in workers:
+        w.join()
+
+    ensure_workers_ok(workers)
+
+
 def resolve_parallelism(parallel):
     """Decide what level of parallelism to use.
 
